@@ -68,7 +68,13 @@ class Log(object):
         if len(self.samples) < cap:
             self.samples.append(s)
 
-    def mark_nontrivial(self, key):
+    owner = None      # property whose check is running (set by the runner)
+
+    def mark_nontrivial(self, key, prop=None):
+        # monitors of other properties stay attached as diagnostics (C01/C02
+        # inside C03 ...): only the checked property's own cases are counted
+        if prop is not None and self.owner is not None and prop != self.owner:
+            return
         self.nontrivial.add(digest(key))
 
     def report(self):
